@@ -179,6 +179,34 @@ def nav_roundtrip(ck: Check, n: int) -> None:
         ok = (type(got) is type(want)) and (got == want) and (not isinstance(want, Decimal) or got.as_tuple().exponent == want.as_tuple().exponent)
         if not ok:
             ck.fail("nav-roundtrip", f"{fname} PIC {pic} {usage} stored {want!r} read back {got!r}", inp)
+        # ONE layout made from the schema alone ("a Location describing any instance of this schema") applied to several records: each
+        # record's bytes decode to the value stored in THAT record
+        from stingray.schema_instance import BytesInstance, LocationMaker
+        digits2 = [rng.randrange(10) for _ in range(nd)]
+        if kind == "packed":
+            buf2, want2 = enc_packed(digits2, sn), spec_value(digits2, sn in NEG_NIBBLES, frac)
+        elif kind == "zoned":
+            buf2, want2 = enc_zoned(digits2, [0xF] * nd, sn), spec_value(digits2, sn in NEG_NIBBLES, frac)
+        else:
+            v2 = rng.randint(-(256 ** w) // 2, (256 ** w) // 2 - 1)
+            buf2, want2 = enc_binary(w, v2), v2
+        ck.oracle_evaluations += 1
+        try:
+            unp = EBCDIC()
+            loc = LocationMaker(unp, schema).from_schema()
+            seen = []
+            for b, wv in ((buf, want), (buf2, want2), (buf, want)):
+                r = BytesInstance("abc".encode("cp037") + b + "xy".encode("cp037"))
+                seen.append((loc.properties[fname].value(r), loc.value(r)[fname], wv, b))
+        except BaseException as ex:  # noqa: BLE001
+            ck.fail("nav-roundtrip", f"reading {fname} PIC {pic} {usage} through the layout made from the schema raises {type(ex).__name__}: {ex}", inp)
+            continue
+        for g1, g2, wv, b in seen:
+            for g in (g1, g2):
+                if not ((type(g) is type(wv)) and g == wv and (not isinstance(wv, Decimal) or g.as_tuple().exponent == wv.as_tuple().exponent)):
+                    ck.fail("nav-roundtrip", f"{fname} PIC {pic} {usage}: one layout applied to several records: the record holding {b.hex()} (stored {wv!r}) "
+                                             f"reads {g!r}", {**inp, "records": [x[3].hex() for x in seen]})
+                    break
 
 
 def run(ck: Check) -> int:
